@@ -54,8 +54,10 @@ EndOk(A) ==
        cdsize == BSub(A.cd_end, A.cd_start)
        cdoff == BSub(A.cd_start, A.prefix) IN
    /\ (NeedEnd(A.n, cdsize, cdoff) => HasZ64(A))
-   /\ e.n_disk = ClampN(A.n) /\ e.n_total = ClampN(A.n)
-   /\ BEq(e.cd_size, Clamp(cdsize)) /\ BEq(e.cd_offset, Clamp(cdoff)) /\ e.disk = 0 /\ e.cddisk = 0
+   \* the 16/32-bit end record holds each value, or - when ZIP64 end records exist - the sentinel
+   /\ (e.n_disk = ClampN(A.n) \/ (HasZ64(A) /\ e.n_disk = TN)) /\ (e.n_total = ClampN(A.n) \/ (HasZ64(A) /\ e.n_total = TN))
+   /\ (BEq(e.cd_size, Clamp(cdsize)) \/ (HasZ64(A) /\ BEq(e.cd_size, T32)))
+   /\ (BEq(e.cd_offset, Clamp(cdoff)) \/ (HasZ64(A) /\ BEq(e.cd_offset, T32))) /\ e.disk = 0 /\ e.cddisk = 0
    /\ BEq(e.trailing, BZero)
    /\ (HasZ64(A) => LET z == A.z64[1] IN
          /\ ToInt(z.n_disk) = A.n /\ ToInt(z.n_total) = A.n /\ BEq(z.cd_size, cdsize) /\ BEq(z.cd_offset, cdoff)
@@ -63,7 +65,12 @@ EndOk(A) ==
          /\ BEq(z.loc_off, BSub(z.rec_pos, A.prefix)) /\ BEq(z.loc_disk, BZero) /\ ToInt(z.loc_ndisks) = 1
          /\ BEq(z.rec_pos, A.cd_end) /\ BEq(z.loc_pos, BAddInt(z.rec_pos, 56)) /\ BEq(e.pos, BAddInt(z.loc_pos, 20)))
    /\ (~HasZ64(A) => BEq(e.pos, A.cd_end))
-EndWriter(A) == HasZ64(A) = NeedEnd(A.n, BSub(A.cd_end, A.cd_start), BSub(A.cd_start, A.prefix))
+\* this crate's writer emits ZIP64 end records exactly when needed and never forces a sentinel
+EndWriter(A) ==
+   LET cdsize == BSub(A.cd_end, A.cd_start)  cdoff == BSub(A.cd_start, A.prefix) IN
+   /\ HasZ64(A) = NeedEnd(A.n, cdsize, cdoff)
+   /\ A.eocd.n_disk = ClampN(A.n) /\ A.eocd.n_total = ClampN(A.n)
+   /\ BEq(A.eocd.cd_size, Clamp(cdsize)) /\ BEq(A.eocd.cd_offset, Clamp(cdoff))
 
 \* ---- what the reader must report for an entry (ZipOpen!EntryView, restated)
 ReaderAgrees(A, c, l, rd) ==
